@@ -27,6 +27,22 @@ code->spec  real lattice/buckshot/sparsity solves (class API and the wrapper fun
             every trace against Trace_Ensemble (named clauses) with the Ensemble invariants in every
             state.  Outputs of randomly_bin / samplepts / fillpts / random_samples are judged by TLC
             against the Grid post-conditions.
+
+spellings   (H09) the specifications enumerate ABSTRACT inputs; harness/c09_spell.py writes each of them in one of its
+and         legal concrete spellings, chosen by a deterministic rotation over the case number, so that every run replays
+boundary    every spelling many times (counts: evidence `extra.spellings`): bounds as list / tuple / ndarray / python ints /
+values      int64 array / float32 array / -0.0 / numpy scalars; bin layouts as list / tuple / numpy integers / keyword /
+            (one dimension) the scalar; counts as int / numpy.int64 / numpy.int32; positional vs keyword vs setter
+            (SetStrictRanges, SetEvaluationLimits, termination / constraints / penalty by setter or by Solve / Step
+            keywords, SetObjective + Step() vs Step(cost)); None given vs omitted; wrapper bounds as list of tuples /
+            lists / int pairs / 2-d arrays.  A failure that only a rotated spelling shows is keyed `...[spelling:<tag>]`.
+            The catalogues TLC enumerates were grown to the boundary values: Grid.tla got `BinChoices` (4, 5, 7, 10, 12
+            bins: primes, composites, two-digit counts) and `Scales` (one unit = 2^sc/16: 5e-324, 1e-300, 1e-9, 1e10,
+            1e299, and boxes 1.4e-6 wide at 0.75 that need > 8 decimals), GridGen.tla is the catalogue of the calls of
+            the randomised generators (randomly_bin for N up to 1024 incl. primes, ndim not given, ones/exact flags with
+            the documented N-1 rule; samplepts / random_samples / fillpts for 0, 1, 10, 12, 100 points on boxes down to
+            one denormal wide, fillpts radii None / 0 / 0.0 / negative / tiny / huge, with and without legacy data),
+            and the recorded runs include ensembles of 10, 11, 12 members and layouts such as (2, 5), (12,), (1, 12).
 """
 import sys, os, json, random, io, contextlib, shutil, time, itertools, warnings
 import numpy as np
@@ -34,6 +50,7 @@ from harness.core import Check, tier_seed, assert_repo, main_guard
 from harness.tlc import run_tlc, scratch_dir, TLCError
 from harness import ensemble_support as S
 from harness import c09_sampler as C9S     # samplers + Searcher (built on the ensembles): Sampler.tla / Searcher.tla
+from harness import c09_spell as SP       # one abstract input, several concrete spellings (rotation)
 
 INF = 1000000
 NONE = -1
@@ -47,7 +64,9 @@ RULE = ("design: TLC explores every completion order of every map call for <=4 m
         "step vs solve) validated by TLC against Trace_Ensemble; (iv) generator outputs judged by the Grid "
         "post-conditions. non-trivial = a replayed behaviour / recorded run in which two members tie for the "
         "minimum or the map completed out of index order or members terminated in different rounds; a Grid case "
-        "with >= 2 dimensions and >= 2 points (order matters)")
+        "with >= 2 dimensions and >= 2 points (order matters); (v) the GridGen catalogue of generator calls (boundary "
+        "values of N / ndim / flags / npts / boxes / radii) executed with TLC's expected length, product and count; every "
+        "abstract input of (ii), (iii), (v) and of the sampler / searcher scripts is written in a rotating concrete spelling")
 
 
 def new_check(a):
@@ -72,12 +91,20 @@ def tlc_jobs(a):
             ("emit", "solver/MC_Ensemble", "MC_Ensemble_emit3.cfg", 1, None),
             ("emit", "solver/MC_Ensemble", "MC_Ensemble_emit4.cfg", 1, None),
             ("grid", "solver/MC_Grid", "MC_Grid_%s.cfg" % a.tier, 1, None),
+            ("grid", "solver/MC_Grid", "MC_Grid_wide.cfg" if thorough else "MC_Grid_wideq.cfg", 1, None),   # 4..12 bins
+            ("grid", "solver/MC_Grid", "MC_Grid_int.cfg", 1, None),          # boxes and centres that are whole numbers
+            ("grid", "solver/MC_Grid", "MC_Grid_scaled.cfg", 1, None),       # units of 5e-324 .. 1e299
+            ("grid", "solver/MC_Grid", "MC_Grid_fine.cfg", 1, None),         # coordinates needing > 8 decimals
+            ("gen", "solver/MC_GridGen", "MC_GridGen_%s.cfg" % a.tier, 1, None),
             ("design", "solver/MC_Ensemble", "MC_Ensemble_completion.cfg", 1, "TieRule|ScheduleIndependence|BestIsThatMember"),
             ("design", "solver/MC_Grid", "MC_Grid_vacuity.cfg", 1, "ColMajorNeverDiffers")]
     if thorough:
         jobs += [("emit", "solver/MC_Ensemble", "MC_Ensemble_emit3k.cfg", 1, None),
                  ("emit", "solver/MC_Ensemble", "MC_Ensemble_emit4s.cfg", 1, None),
                  ("grid", "solver/MC_Grid", "MC_Grid_d4.cfg", 1, None),
+                 ("grid", "solver/MC_Grid", "MC_Grid_wide3.cfg", 1, None),
+                 ("design", "solver/MC_GridGen", "MC_GridGen_vac_NeverPrimeReplaced.cfg", 1, "NeverPrimeReplaced"),
+                 ("design", "solver/MC_GridGen", "MC_GridGen_vac_NeverDegenerateBox.cfg", 1, "NeverDegenerateBox"),
                  ("design", "solver/MC_Ensemble", "MC_Ensemble_quick.cfg", 2, None),
                  ("design", "solver/MC_Ensemble", "MC_Ensemble_thorough.cfg", w, None),
                  ("design", "solver/MC_Ensemble", "MC_Ensemble_thorough4.cfg", w, None),
@@ -87,7 +114,7 @@ def tlc_jobs(a):
     return jobs
 
 
-def run_jobs(a, kinds=("emit", "grid", "design")):
+def run_jobs(a, kinds=("emit", "grid", "gen", "design")):
     """run the TLC jobs concurrently (they are independent processes); returns {kind: [(name, result, expect)]}"""
     from concurrent.futures import ThreadPoolExecutor
     jobs = [j for j in tlc_jobs(a) if j[0] in kinds]
@@ -95,7 +122,7 @@ def run_jobs(a, kinds=("emit", "grid", "design")):
     def one(j):
         kind, module, cfg, workers, expect = j
         return kind, cfg[:-4], run_tlc(module, cfg=cfg, workers=workers, timeout=3000, heap="6g"), expect
-    out = {"emit": [], "grid": [], "design": []}
+    out = {"emit": [], "grid": [], "gen": [], "design": []}
     with ThreadPoolExecutor(max(1, min(len(jobs), max(2, a.jobs // 2)))) as ex:
         for kind, name, r, expect in ex.map(one, jobs):
             out[kind].append((name, r, expect))
@@ -129,8 +156,10 @@ def snap_ensemble(s):
             "real": len(S.LOG), "best": bi, "n": len(s._allSolvers)}
 
 
-def replay_behaviour(b, kind):
-    """run one TLC behaviour on a real ensemble; returns (list of per-call snapshots, stopped flag, starts ok)"""
+def replay_behaviour(b, kind, sp=0):
+    """run one TLC behaviour on a real ensemble; returns (list of per-call snapshots, stopped flag, starts ok).
+    `sp` rotates the spelling of the layout / number of points (list, tuple, numpy integers, keyword) and of the
+    ensemble's id (not set / 0: the falsy id)"""
     from mystic.solvers import LatticeSolver, BuckshotSolver
     S.reset()
     S.PROGRAMS.clear()
@@ -138,11 +167,16 @@ def replay_behaviour(b, kind):
     for i, t in enumerate(b["traj"]):
         S.PROGRAMS[i] = [tuple(st) for st in t]
     if kind == "lattice":
-        s = LatticeSolver(2, [n, 1])
+        pos, akw = spell_count("lattice", [n, 1], sp)
+        s = LatticeSolver(2, *pos, **akw)
     elif kind == "lattice-int":
-        s = LatticeSolver(2, [1, n])
+        pos, akw = spell_count("lattice", [1, n], sp)
+        s = LatticeSolver(2, *pos, **akw)
     else:
-        s = BuckshotSolver(2, n)
+        pos, akw = spell_count("buckshot", n, sp)
+        s = BuckshotSolver(2, *pos, **akw)
+    if sp % 4 == 3:
+        s.id = 0
     s.SetNestedSolver(S.ScriptedSolver())
     s.SetTermination(S.script_term())
     s.SetMapper(S.ScheduledMap(b["hist"]))
@@ -184,7 +218,7 @@ def scripted_replay(ck, emitted, corrupt=False):
                 b["obs"][-1]["ens"]["total"] += 1
             kind = kinds[nb % 3]
             try:
-                snaps, stopped, s = replay_behaviour(b, kind)
+                snaps, stopped, s = replay_behaviour(b, kind, nb // 3)
             except Exception as ex:
                 ck.case(nontrivial=behaviour_nontrivial(b), key=("b", name, nb))
                 ck.violation("replay:raised", {"behaviour": b, "kind": kind, "error": repr(ex)},
@@ -228,7 +262,19 @@ def scripted_replay(ck, emitted, corrupt=False):
 # =========================================================================================
 # spec -> code (b): Grid case tables
 # =========================================================================================
+def _canon_fails(fn):
+    """a rotated spelling failed: does the canonical spelling of the same case fail too?"""
+    try:
+        return not fn()
+    except Exception:
+        return True
+
+
 def grid_tables(ck, emitted, obs, corrupt=False):
+    """every Grid case against gridpts and LatticeSolver._InitialPoints, exactly.  A coordinate of u units is the double
+    u * 2^sc / 16 (Grid.tla); the bins, the layout and the bounds are handed over in a spelling chosen by rotation over
+    the case number (harness/c09_spell.py); a failure under a rotated spelling that the canonical spelling (lists of
+    python floats, positional) does not show is keyed `...[spelling:<tag>]`."""
     from mystic.math.grid import gridpts, samplepts
     from mystic.solvers import LatticeSolver
     nc = 0
@@ -242,51 +288,76 @@ def grid_tables(ck, emitted, obs, corrupt=False):
             if not isinstance(c, dict) or "pts" not in c:
                 continue
             nc += 1
-            exp = [[v / 16.0 for v in p] for p in c["pts"]]
+            sc = c.get("sc", 0)
+            exp = [[SP.val(v, sc) for v in p] for p in c["pts"]]
             if corrupt and nc == 11:
-                exp[-1][-1] += 0.0625
-            bins = [[v / 16.0 for v in b] for b in c["bins"]]
-            lo = [v / 16.0 for v in c["lo"]]
-            hi = [v / 16.0 for v in c["hi"]]
+                exp[-1][-1] += SP.val(1, sc)
+            bins = [[SP.val(v, sc) for v in b] for b in c["bins"]]
+            lo = [SP.val(v, sc) for v in c["lo"]]
+            hi = [SP.val(v, sc) for v in c["hi"]]
             nt = c["dim"] >= 2 and len(exp) >= 2
-            key = ("g", tuple(c["nbins"]), tuple(c["lo"]), tuple(c["hi"]))
+            key = ("g", tuple(c["nbins"]), tuple(c["lo"]), tuple(c["hi"]), sc)
             ck.case(nontrivial=nt, key=key)
             # gridpts on the per-dimension centre lists of the specification
+            qobj, qtag = SP.bins(bins, SP.rot(nc, SP.GRID))
+
+            def run_gridpts(q):
+                return [[float(v) for v in p] for p in (gridpts(q) if nc % 2 else gridpts(q, None))]
             try:
-                got = [[float(v) for v in p] for p in gridpts(bins)]
+                got = run_gridpts(qobj)
             except Exception as ex:
                 got = "raised %r" % (ex,)
             if got != exp:
                 what = "count" if (isinstance(got, list) and len(got) != len(exp)) else \
                        "order" if (isinstance(got, list) and sorted(got) == sorted(exp)) else "points"
-                ck.violation("grid:gridpts-" + what, {"case": c, "bins": bins, "expected": exp, "got": got},
-                             "gridpts(%s): spec %s, mystic %s" % (bins, exp[:6], got[:6] if isinstance(got, list) else got))
+                sfx = "" if qtag == "lists" or _canon_fails(lambda: run_gridpts(bins) == exp) else "[spelling:%s]" % qtag
+                ck.violation("grid:gridpts-" + what + sfx, {"case": c, "bins": bins, "spelling": qtag, "expected": exp, "got": got},
+                             "gridpts(%s) [bins written as %s]: spec %s, mystic %s" % (
+                                 bins, qtag, exp[:6], got[:6] if isinstance(got, list) else got))
             # the lattice solver's starting points
+            loobj, hiobj, ltag = SP.pair_rot(lo, hi, "bounds")
+            tags = [None, ltag, None]
+
+            def run_lattice(canon=False):
+                if canon:
+                    s = LatticeSolver(c["dim"], list(c["nbins"]))
+                    s.SetStrictRanges(list(lo), list(hi))
+                else:
+                    tags[0] = SP.nbins_tag(c["dim"], nc // 3)
+                    s, _t = SP.lattice(LatticeSolver, c["dim"], c["nbins"], tags[0])
+                    tags[2] = SP.set_ranges(s, loobj, hiobj, SP.rot(nc, SP.RANGES, 5))
+                return [[float(v) for v in p] for p in s._InitialPoints()], len(s._allSolvers)
             try:
-                s = LatticeSolver(c["dim"], list(c["nbins"]))
-                s.SetStrictRanges(list(lo), list(hi))
-                got = [[float(v) for v in p] for p in s._InitialPoints()]
-                nmem = len(s._allSolvers)
+                got, nmem = run_lattice()
             except Exception as ex:
                 got, nmem = "raised %r" % (ex,), len(exp)
             if got != exp or nmem != len(exp):
                 what = "count" if (nmem != len(exp) or (isinstance(got, list) and len(got) != len(exp))) else \
                        "order" if (isinstance(got, list) and sorted(got) == sorted(exp)) else "centres"
-                ck.violation("grid:lattice-" + what, {"case": c, "expected": exp, "got": got, "members": nmem},
-                             "LatticeSolver(%d, %s) on [%s, %s]: spec %s, mystic %s" % (
-                                 c["dim"], c["nbins"], lo, hi, exp[:6], got[:6] if isinstance(got, list) else got))
-            # sampled points for the same box: judged by the Grid post-condition (see generator_obs)
+                canon = tags[0] == "list" and tags[1] == "list" and tags[2] in ("positional", None)
+                sfx = "" if canon or _canon_fails(lambda: run_lattice(True) == (exp, len(exp))) else \
+                    "[spelling:%s]" % "+".join("%s=%s" % kv for kv in zip(("nbins", "bounds", "ranges"), tags)
+                                               if kv[1] not in ("list", "positional", None))
+                ck.violation("grid:lattice-" + what + sfx,
+                             {"case": c, "spelling": dict(zip(("nbins", "bounds", "SetStrictRanges"), tags)), "expected": exp,
+                              "got": got, "members": nmem},
+                             "LatticeSolver(%d, %s) on [%s, %s] (nbins %s, bounds %s, SetStrictRanges %s): spec %s, mystic %s" % (
+                                 c["dim"], c["nbins"], lo, hi, tags[0], tags[1], tags[2], exp[:6],
+                                 got[:6] if isinstance(got, list) else got))
+            # sampled points for the same box -- the SAME caller-owned bounds objects the lattice was given: judged by the
+            # Grid post-condition (see generator_obs)
             if nc % 7 == 0:
                 try:
-                    pts = samplepts(list(lo), list(hi), len(exp))
+                    pts = samplepts(loobj, hiobj, len(exp))
                 except Exception as ex:
                     pts = None
-                    ck.violation("gen:samplepts-raised", {"lo": lo, "hi": hi, "npts": len(exp), "error": repr(ex)},
-                                 "samplepts(%s, %s, %d) raised %r" % (lo, hi, len(exp), ex))
+                    ck.violation("gen:samplepts-raised", {"lo": lo, "hi": hi, "npts": len(exp), "spelling": ltag, "error": repr(ex)},
+                                 "samplepts(%s, %s, %d) [bounds written as %s] raised %r" % (lo, hi, len(exp), ltag, ex))
                 if pts is not None:
                     obs.append(pts_obs("samplepts", len(exp), c["dim"], lo, hi, pts))
-            if nc in (40, 500):
-                ck.sample({"grid_case": {k: c[k] for k in ("dim", "nbins", "lo", "hi")}, "units": "1/16",
+            if nc in (40, 500, 1000, 1700):
+                ck.sample({"grid_case": {k: c[k] for k in ("dim", "nbins", "lo", "hi")}, "units": "2^%d/16" % sc,
+                           "spelling": {"gridpts": qtag, "nbins": tags[0], "bounds": tags[1], "SetStrictRanges": tags[2]},
                            "spec_points": c["pts"][:8]})
     ck.extra["grid_cases"] = nc
 
@@ -366,6 +437,130 @@ def generator_obs(ck, a, obs):
                          "fillpts(%s, %s, %d) raised %r" % (lo, hi, npts, ex))
 
 
+RTOL = {"none": [None], "zero": [0, 0.0, -0.0], "pos": [0.25], "neg": [-0.25, -1], "tiny": [1e-300, 5e-324], "huge": [1e10, 1e300]}
+
+
+def generator_cases(ck, a, emitted, obs, corrupt=False):
+    """the GridGen catalogue (TLC enumerates the calls and what is demanded of the result) executed on the real
+    randomly_bin / samplepts / random_samples / fillpts, every argument in a rotated spelling; the TLC-emitted length,
+    product and count are compared here, the ranges are judged by TLC (Obs_Grid) with the other observations"""
+    from mystic.math.grid import samplepts, fillpts, randomly_bin
+    from mystic.math.samples import random_samples
+    rng = random.Random(a.seed + 4099)
+    ng = 0
+    stats = {}
+    for name, r, _ in emitted:
+        ck.mc(r, name)
+        if r.violated:
+            ck.violation("spec:" + r.violated, {"cfg": name, "tlc": r.out[-3000:]},
+                         "design invariant %s violated in GridGen.tla (%s)" % (r.violated, name))
+            continue
+        for c in r.printed:
+            if not isinstance(c, dict) or "gen" not in c:
+                continue
+            ng += 1
+            sd = rng.randrange(10 ** 6)
+            random.seed(sd)
+            np.random.seed(sd)
+            stats[c["fn"]] = stats.get(c["fn"], 0) + 1
+            if c["gen"] == "rbin":
+                N, _t = SP.count(c["N"], SP.rot(ng, SP.INT), "N")
+                args, kw = [N], {}
+                how = ng % 4                                   # positional / keywords / defaults omitted / mixed
+                if c["ndim"] == 0:
+                    if how == 1:
+                        kw["ndim"] = None
+                    elif how == 3 or not (c["ones"] and c["exact"]):
+                        args.append(None)
+                else:
+                    nd, _t = SP.count(c["ndim"], SP.rot(ng, SP.INT, 3), "ndim")
+                    if how == 1:
+                        kw["ndim"] = nd
+                    else:
+                        args.append(nd)
+                if how == 0 and len(args) == 2:
+                    args += [c["ones"], c["exact"]]
+                elif how == 2 and c["ones"] and c["exact"]:
+                    pass                                       # both at their documented defaults: omitted
+                else:
+                    kw["ones"], kw["exact"] = c["ones"], c["exact"]
+                SP.TALLY.hit("randomly_bin", ["positional", "keywords", "defaults-omitted", "mixed"][how])
+                exp_prod = c["prod"] + (1 if corrupt and ng == 9 else 0)
+                ck.case(nontrivial=c["N"] > 1 and c["ndim"] != 1, key=("gc", json.dumps(c, sort_keys=True)))
+                try:
+                    res = [int(v) for v in randomly_bin(*args, **kw)]
+                except Exception as ex:
+                    ck.violation("gen:randomly_bin-raised", {"case": c, "args": repr(args), "kwds": repr(kw), "seed": sd, "error": repr(ex)},
+                                 "randomly_bin(*%r, **%r) raised %r" % (args, kw, ex))
+                    continue
+                prod = 1
+                for v in res:
+                    prod *= v
+                bad = []
+                if c["len"] and len(res) != c["len"]:
+                    bad.append("length")
+                if prod != exp_prod:
+                    bad.append("product")
+                if bad:
+                    ck.violation("gen:randomly_bin:%s%s" % ("+".join(bad), "" if c["exact"] else "[exact=False]"),
+                                 {"case": c, "args": repr(args), "kwds": repr(kw), "seed": sd, "result": res,
+                                  "spec": {"len": c["len"], "prod": exp_prod}},
+                                 "randomly_bin(*%r, **%r) = %s: the specification demands length %s and product %s" % (
+                                     args, kw, res, c["len"] or "free", exp_prod))
+                obs.append({"kind": "rbinx", "fn": "randomly_bin", "N": c["N"], "ndim": c["ndim"], "exact": c["exact"], "r": res,
+                            "raw": {"seed": sd, "args": repr(args), "kwds": repr(kw)}})
+                continue
+            # ------------------------------------------------------------------ points in a box
+            lo = [SP.val(u, c["sc"]) for u in c["lo"]]
+            hi = [SP.val(u, c["sc"]) for u in c["hi"]]
+            loobj, hiobj, ltag = SP.pair_rot(lo, hi, "lb/ub")
+            npts, ntag = SP.count(c["npts"], SP.rot(ng, SP.INT, 2), "npts")
+            fn = c["fn"]
+            args, kw = [loobj, hiobj, npts], {}
+            if fn == "fillpts":
+                rt = SP.rot(ng, RTOL[c["rtol"]], 2)
+                data = None
+                if c["data"]:
+                    mid = [(l + h) / 2.0 for l, h in zip(lo, hi)]
+                    data = [[mid, lo], (tuple(mid), tuple(hi)), np.array([mid])][ng % 3]
+                if ng % 2 and not c["data"] and rt is None:
+                    pass                                       # data and rtol omitted
+                elif ng % 4 == 0:
+                    kw.update(data=data, rtol=rt)
+                else:
+                    args += [data, rt]
+                call = lambda: fillpts(*args, **kw)
+            else:
+                if ng % 3 == 0:
+                    kw["dist"] = None                          # None given vs. omitted
+                if ng % 5 == 0:
+                    args, kw = [loobj, hiobj], dict(kw, npts=npts)
+                call = (lambda: samplepts(*args, **kw)) if fn == "samplepts" else (lambda: random_samples(*args, **kw).T.tolist())
+            ck.case(nontrivial=c["npts"] > 1, key=("gc", json.dumps(c, sort_keys=True)))
+            try:
+                with quiet():
+                    pts = call()
+            except Exception as ex:
+                ck.violation("gen:%s-raised" % fn, {"case": c, "lo": lo, "hi": hi, "spelling": ltag, "kwds": repr(kw), "seed": sd,
+                                                    "error": repr(ex)},
+                             "%s(%s, %s, %s%s) [bounds written as %s] raised %r" % (fn, lo, hi, c["npts"], ", ..." if len(args) > 3 or kw else "",
+                                                                                  ltag, ex))
+                continue
+            exp_count = c["count"] + (1 if corrupt and ng == 9 else 0)
+            if len(pts) != exp_count:
+                ck.violation("gen:%s:count" % fn, {"case": c, "lo": lo, "hi": hi, "spelling": ltag, "seed": sd, "points": pts[:8],
+                                                   "spec": {"count": exp_count}},
+                             "%s(%s, %s, %s) returned %d points, the specification demands %d" % (fn, lo, hi, c["npts"], len(pts), exp_count))
+            if not (SP.same_reals(loobj, lo) and SP.same_reals(hiobj, hi)):
+                ck.violation("gen:%s:bounds-argument-modified" % fn, {"case": c, "lo": lo, "hi": hi, "spelling": ltag,
+                                                                       "after": [repr(loobj), repr(hiobj)]},
+                             "%s wrote into the caller's bounds (%s): a second call with the same objects samples another box" % (fn, ltag))
+            o = pts_obs(fn, c["npts"], c["dim"], lo, hi, pts)
+            o["raw"].update(seed=sd, spelling=ltag, sc=c["sc"])
+            obs.append(o)
+    ck.extra["generator_catalogue_cases"] = stats
+
+
 def judge_obs(ck, obs, corrupt=False):
     if not obs:
         return
@@ -383,7 +578,7 @@ def judge_obs(ck, obs, corrupt=False):
     if not verdicts or len(verdicts[-1]["verdicts"]) != len(obs):
         raise TLCError("no verdicts from Obs_Grid:\n" + r.out[-3000:])
     for o, failing in zip(obs, verdicts[-1]["verdicts"]):
-        nt = (o["kind"] == "rbin" and o["N"] > 1 and o["ndim"] > 1) or (o["kind"] == "pts" and o["npts"] > 1)
+        nt = (o["kind"] in ("rbin", "rbinx") and o["N"] > 1 and o["ndim"] != 1) or (o["kind"] == "pts" and o["npts"] > 1)
         ck.case(nontrivial=nt, key=("o", o["fn"], json.dumps({k: v for k, v in o.items() if k != "raw"}, sort_keys=True)))
         if failing:
             ck.violation("gen:%s:%s" % (o["fn"], "+".join(sorted(failing))), {"observation": o, "failing_clauses": failing},
@@ -581,6 +776,43 @@ def nested_class(name):
     return {"NM": ms.NelderMeadSimplexSolver, "PW": ms.PowellDirectionalSolver, "DE": ms.DifferentialEvolutionSolver}[name]
 
 
+def spell_count(kind, arg, sp):
+    """the number of points / the bin layout of an ensemble (class or wrapper) in a rotated spelling:
+    (positional arguments, keyword arguments)"""
+    name = "nbins" if kind == "lattice" else "npts"
+    v = sp % 5
+    if isinstance(arg, (list, tuple)):
+        arg = [int(x) for x in arg]
+        val, tag = [(list(arg), "list"), (tuple(arg), "tuple"), ([np.int64(x) for x in arg], "np.int64-list"),
+                    (tuple(arg), "kw-tuple"), (list(arg), "kw-list")][v]
+    else:
+        val, tag = [(int(arg), "int"), (np.int64(arg), "np.int64"), (np.int32(arg), "np.int32"), (int(arg), "kw-int"),
+                    (np.int64(arg), "kw-np.int64")][v]
+    SP.TALLY.hit("ensemble-" + name, tag)
+    return ([], {name: val}) if tag.startswith("kw") else ([val], {})
+
+
+def spell_bounds(bounds, sp):
+    """wrapper `bounds`: documented as a list of (min, max) pairs"""
+    b = [(float(l), float(h)) for l, h in bounds]
+    integral = all(v.is_integer() for p in b for v in p)
+    v = sp % 6
+    if v == 1:
+        out, tag = [list(p) for p in b], "list-of-lists"
+    elif v == 2:
+        out, tag = tuple(b), "tuple-of-tuples"
+    elif v == 3 and integral:
+        out, tag = [(int(l), int(h)) for l, h in b], "int-pairs"
+    elif v == 4:
+        out, tag = np.array(b, dtype=float), "2d-array"
+    elif v == 5 and integral:
+        out, tag = np.array(b, dtype=np.int64), "2d-int-array"
+    else:
+        out, tag = list(b), "list-of-tuples"
+    SP.TALLY.hit("wrapper-bounds", tag)
+    return out
+
+
 def run_config(cfg, rng):
     """execute one configuration on the real code; returns the Run (events recorded) or raises"""
     import mystic.solvers as ms
@@ -588,6 +820,7 @@ def run_config(cfg, rng):
     S.reset()
     random.seed(cfg["seed"])
     np.random.seed(cfg["seed"] % (2 ** 32))
+    sp = cfg.get("sp", 0)
     run = Run(cfg)
     S.SINK[0] = run
     cost = S.COSTS[cfg["cost"]]
@@ -605,20 +838,31 @@ def run_config(cfg, rng):
             if cfg["pen"]:
                 kw["penalty"] = S.pen_half
             arg = cfg["nbins"] if cfg["kind"] == "lattice" else cfg["n"]
-            ret = fn(cost, cfg["dim"], arg, bounds=list(cfg["bounds"]) if cfg["strict"] else None, ftol=cfg["ftol"],
-                     gtol=cfg["gtol"], maxiter=limG, maxfun=limE, full_output=1, disp=0, **kw)
+            # spelling rotation (cfg["sp"]): the count / layout, the bounds, None vs omitted, 1/0 vs True/False
+            pos, akw = spell_count(cfg["kind"], arg, sp)
+            if cfg["strict"]:
+                kw["bounds"] = spell_bounds(cfg["bounds"], [3, 5, 1, 3, 5, 4][sp % 6] if cfg.get("boundary") else sp // 2)
+            elif sp % 2:
+                kw["bounds"] = None
+            if limG is not None or sp % 3 == 0:
+                kw["maxiter"] = limG
+            if limE is not None or sp % 3 == 1:
+                kw["maxfun"] = limE
+            kw.update(akw)
+            ret = fn(cost, cfg["dim"], *pos, ftol=cfg["ftol"], gtol=cfg["gtol"], full_output=(1 if sp % 2 else True),
+                     disp=(0 if sp % 4 < 2 else False), **kw)
             x, fval, iters, fcalls, warnflag, allfcalls = ret[:6]
             with S.LOCK:
                 run.collect({"bestE": float(fval), "bestX": S.tup(x), "evals": int(fcalls), "total": int(allfcalls),
                              "nmem": len(run.solvers), "bestidx": 0, "allE": [], "allEv": [],
                              "stopped": all(bool(s.Terminated()) for s in run.solvers.values()), "real": len(S.LOG)})
             return run
-        if cfg["kind"] == "lattice":
-            s = ms.LatticeSolver(cfg["dim"], cfg["nbins"])
-        elif cfg["kind"] == "buckshot":
-            s = ms.BuckshotSolver(cfg["dim"], cfg["n"])
-        else:
-            s = ms.SparsitySolver(cfg["dim"], cfg["n"])
+        cls = {"lattice": ms.LatticeSolver, "buckshot": ms.BuckshotSolver, "sparsity": ms.SparsitySolver}[cfg["kind"]]
+        pos, akw = spell_count(cfg["kind"], cfg["nbins"] if cfg["kind"] == "lattice" else cfg["n"], sp)
+        if cfg["kind"] == "sparsity" and sp % 5:
+            akw["rtol"] = [None, None, 0, 0.0, -0.5][sp % 5]      # the default written out, a falsy radius, the quick method
+            SP.TALLY.hit("sparsity-rtol", repr(akw["rtol"]))
+        s = cls(cfg["dim"], *pos, **akw)
         run.term = S.gen_term(cfg["termG"]) if cfg["termG"] is not None else mt.VTR(1e-3)
         if cfg.get("inst"):
             # a configured solver INSTANCE without an objective: it keeps its own limits and termination, and the
@@ -633,15 +877,45 @@ def run_config(cfg, rng):
         else:
             s.SetNestedSolver(nested)
         if cfg["strict"]:
-            s.SetStrictRanges([b[0] for b in cfg["bounds"]], [b[1] for b in cfg["bounds"]])
+            lo_, hi_ = [b[0] for b in cfg["bounds"]], [b[1] for b in cfg["bounds"]]
+            if cfg.get("boundary"):       # whole-number boxes: mostly written as integers (members get integer-dtype ranges)
+                loobj, hiobj, _t = SP.pair(lo_, hi_, ["ints", "int64-array", "ints", "tuple", "int64-array", "ndarray"][sp % 6], "ens-ranges")
+            else:
+                loobj, hiobj, _t = SP.pair_rot(lo_, hi_, "ens-ranges")
+            SP.set_ranges(s, loobj, hiobj, SP.rot(sp, SP.RANGES, 2))
+        # settings by setter, or (a plain class-API Solve / first Step) by the documented keywords of Solve / Step
+        bykw = sp % 3 == 1 and not cfg.get("inst") and not cfg.get("again")
+        callkw = {}
         if cfg["cons"]:
-            s.SetConstraints(S.cons_grid)
+            if bykw:
+                callkw["constraints"] = S.cons_grid
+            else:
+                s.SetConstraints(S.cons_grid)
         if cfg["pen"]:
-            s.SetPenalty(S.pen_half)
+            if bykw:
+                callkw["penalty"] = S.pen_half
+            else:
+                s.SetPenalty(S.pen_half)
         if (limG is not None or limE is not None) and not cfg.get("inst"):
-            s.SetEvaluationLimits(limG, limE)
-        s.SetTermination(run.term)
+            lim = sp % 4
+            if lim == 1:
+                s.SetEvaluationLimits(generations=limG, evaluations=limE)
+            elif lim == 2 and limE is None:
+                s.SetEvaluationLimits(limG)                        # None vs omitted
+            elif lim == 2 and limG is None:
+                s.SetEvaluationLimits(evaluations=limE)
+            elif lim == 3:
+                s.SetEvaluationLimits(evaluations=limE, generations=limG)
+            else:
+                s.SetEvaluationLimits(limG, limE)
+            SP.TALLY.hit("SetEvaluationLimits", ["positional", "keywords", "one-omitted", "keywords-swapped"][lim])
+        if bykw:
+            callkw["termination"] = run.term
+        else:
+            s.SetTermination(run.term)
+        SP.TALLY.hit("settings", "Solve/Step-keywords" if bykw else "setters")
         s.SetMapper(mapper)
+        disp = 0 if sp % 4 < 2 else False
 
         def report():
             try:
@@ -655,10 +929,10 @@ def run_config(cfg, rng):
                              "allE": [float(v) for v in s._all_bestEnergy], "allEv": [int(v) for v in s._all_evals],
                              "stopped": bool(s.Terminated()), "real": len(S.LOG)})
         if cfg["mode"] == "solve":
-            s.Solve(cost, disp=0)
+            s.Solve(cost, disp=disp, **callkw)
             report()
             for _ in range(cfg.get("again", 0)):
-                s.Solve(disp=0)
+                s.Solve(disp=disp)
                 report()
         elif cfg["mode"] == "stepsolve":
             # Solve(step=True): the ensemble loops over Step itself; one Collect at the end would hide the
@@ -669,12 +943,19 @@ def run_config(cfg, rng):
                 orig(*args, **kwds)
                 report()
             s._Step = stepped
-            s.Solve(cost, disp=0, step=True)
+            s.Solve(cost, disp=disp, step=True, **callkw)
             s._Step = orig
         else:
             k = 0
+            objset = sp % 2 == 1                  # the objective by SetObjective, then Step() -- or Step(cost) every time
+            if objset:
+                s.SetObjective(cost)
+            SP.TALLY.hit("Step", "SetObjective+Step()" if objset else "Step(cost)")
             while True:
-                msg = s.Step(cost, disp=0)
+                if objset:
+                    msg = s.Step(disp=disp, **(callkw if k == 0 else {}))
+                else:
+                    msg = s.Step(cost, disp=disp, **(callkw if k == 0 else {}))
                 report()
                 k += 1
                 if msg or k > 400:
@@ -735,6 +1016,31 @@ def gen_configs(a, count, rng):
             cfg["inst"], cfg["again"] = True, 0
             if not (cfg["strict"] or cfg["cons"] or cfg["pen"]):
                 cfg[rng.choice(["strict", "cons", "pen"])] = True
+        cfg["sp"] = k
+        cfgs.append(cfg)
+    # boundary configurations (their own generator, so the ones above stay what they were): two-digit numbers of members,
+    # layouts with 4..12 bins (primes, composites), a prime / composite INTEGER nbins, on whole-number boxes 15 wide (every
+    # centre for 1..6, 10, 12 bins is a multiple of 1/16) under tiny limits
+    rng2 = random.Random(a.seed * 104729 + 7)
+    wide = [(-6.0, 9.0), (0.0, 15.0), (-15.0, 0.0)]             # whole numbers: can be written as python ints / integer arrays
+    shapes = [("buckshot", 2, None, 10), ("lattice", 2, [2, 5], 10), ("lattice", 1, [12], 12), ("buckshot", 1, None, 12),
+              ("lattice", 2, [3, 4], 12), ("lattice", 2, 10, 10), ("lattice", 1, [10], 10), ("lattice", 2, [4, 3], 12),
+              ("lattice", 3, 12, 12), ("buckshot", 3, None, 11), ("lattice", 2, 11, 11), ("lattice", 2, [1, 12], 12),
+              ("sparsity", 2, None, 10), ("lattice", 2, [5, 2], 10), ("lattice", 1, 7, 7), ("lattice", 2, [6, 2], 12),
+              ("sparsity", 1, None, 3), ("buckshot", 2, None, 100 if thorough else 24)]
+    nb = max(6, count // 6)
+    for j in range(nb):
+        kind, dim, nbins, n = shapes[j % len(shapes)]
+        if kind == "sparsity" and not thorough and j >= len(shapes):
+            kind = "buckshot"
+        api = "wrapper" if j % 4 == 3 else "class"
+        mode = "solve" if api == "wrapper" else ["solve", "step", "stepsolve"][j % 3]
+        nested = "NM" if dim == 1 or j % 5 else "PW"
+        cfg = {"kind": kind, "api": api, "dim": dim, "nested": nested, "strict": True, "bounds": [rng2.choice(wide) for _ in range(dim)],
+               "nbins": nbins, "n": n, "mode": mode, "cost": rng2.choice(["bowl", "plateau", "steps"]),
+               "termG": (2 if api == "class" and j % 2 else None), "limG": rng2.choice([1, 2]), "limE": rng2.choice([None, None, 6]),
+               "cons": j % 7 == 3, "pen": j % 7 == 5, "map": rng2.choice(maps), "seed": rng2.randrange(10 ** 6), "ftol": 1e-4,
+               "gtol": 2, "again": 0, "sp": count + j, "boundary": True}
         cfgs.append(cfg)
     return cfgs
 
@@ -824,9 +1130,37 @@ def validate(traces, ck, name):
         if not summ:
             raise TLCError("no acceptance summary from trace validation:\n" + r.out[-3000:])
         rejected = [i - 1 for i in summ[-1]["rejected"]]
-    for k, i in enumerate(rejected):
-        verdicts[i] = diagnose(traces[i]) if k < 16 else {"failing": ["rejected-not-diagnosed"], "at": None, "event": None}
+    for i, v in zip(rejected, diagnose_many([traces[i] for i in rejected])):
+        verdicts[i] = v
     return verdicts
+
+
+def diagnose_many(traces):
+    """ONE diagnosis run over all rejected traces (a thorough run rejects about a hundred traces of the known
+    configured-instance finding: each must be named, not merely counted); single runs only if an invariant stops TLC"""
+    if not traces:
+        return []
+    if len(traces) <= 2:
+        return [diagnose(t) for t in traces]
+    r = _validate_batch(traces, diag=True)
+    summ = [p for p in r.printed if isinstance(p, dict) and "accepted" in p]
+    if (r.violated and r.kind in ("invariant", "action-property")) or not summ or len(summ[-1]["prefix"]) != len(traces):
+        return [diagnose(t) if k < 16 else {"failing": ["rejected-not-diagnosed"], "at": None, "event": None}
+                for k, t in enumerate(traces)]
+    out = []
+    for k, t in enumerate(traces):
+        if (k + 1) not in summ[-1]["rejected"]:
+            out.append(diagnose(t))
+            continue
+        pre = max(summ[-1]["prefix"][k], 2)
+        probes = [p for p in r.printed if isinstance(p, dict) and p.get("probe") == k + 1 and p["at"] == pre]
+        failing = sorted(set(x for p in probes for x in p["failing"]))
+        at = pre - 1
+        ev = t[at] if at < len(t) else None
+        if not failing:
+            failing = ["event-not-enabled:%s" % (ev or {}).get("ev", "end-of-trace")]
+        out.append({"failing": failing, "at": at, "event": ev})
+    return out
 
 
 def trace_nontrivial(run):
@@ -895,6 +1229,7 @@ def real_runs(ck, a, count, corrupt=False):
 # =========================================================================================
 def explore(ck, a, cache=None, light=False, corrupt=None):
     thorough = a.tier == "thorough"
+    SP.reset_turns()                           # the spelling rotation starts afresh: a run is reproducible
     if not light:
         C9S.prefetch(a)                        # its TLC jobs run in the background meanwhile
     res = cache if cache else run_jobs(a)
@@ -904,6 +1239,7 @@ def explore(ck, a, cache=None, light=False, corrupt=None):
     obs = []
     grid_tables(ck, res["grid"], obs, corrupt=(corrupt == "grid"))
     generator_obs(ck, a, obs)
+    generator_cases(ck, a, res.get("gen", []), obs, corrupt=(corrupt == "gencat"))
     judge_obs(ck, obs, corrupt=(corrupt == "obs"))
     real_runs(ck, a, getattr(a, "nruns", None) or (2500 if thorough else 220), corrupt=(corrupt == "trace"))
     ck.exhaustive = False
@@ -918,10 +1254,16 @@ def explore(ck, a, cache=None, light=False, corrupt=None):
         "limits are set on it), while the ensemble's bounds, constraints and penalty must reach it through the objective",
         "ties between members are resolved as the specification transcribes __update_bestSolver (last minimal member)",
         "process-based maps (pathos/multiprocess) are not installed; thread pools and re-ordering maps stand in",
-        "settings changed on the ensemble AFTER its members exist are outside the runs (they are not propagated)"]
+        "settings changed on the ensemble AFTER its members exist are outside the runs (they are not propagated)",
+        "spellings: only spellings the unchanged implementation accepts are rotated (an ndarray as `nbins`, numpy.all as "
+        "`if_terminated` of sample(), a limit of 0 generations / evaluations on an ensemble raise and are outside the domain); "
+        "float32 bounds are used only where every value and every centre is a float32 (the arithmetic then happens in "
+        "float32); scaled boxes are powers of two times the basic boxes, so the IEEE arithmetic stays exact; zero points / "
+        "zero members are not requested from fillpts and the ensembles"]
     if not light:
         C9S.sampler_part(ck, a)
         C9S.searcher_part(ck, a)
+    ck.extra["spellings"] = dict(sorted(SP.TALLY.items()))
 
 
 # =========================================================================================
@@ -985,13 +1327,34 @@ def mutants():
     m.append(("randomly_bin drops a factor",
               lambda: patch(GR, "randomly_bin", "result = [product(result[i::dim]) for i in range(dim)]",
                             "result = [product(result[i::dim][:1]) for i in range(dim)]")))
+    # ---- mutants that only the rotated SPELLINGS / the BOUNDARY values of the catalogues can show (H09)
+    m.append(("[spelling/boundary] lattice bin width rounded to 8 decimals",
+              lambda: patch(EN.LatticeSolver, "_InitialPoints", "step = 1. * abs(upper[i] - lower[i])/nbins[i]",
+                            "step = round(1. * abs(upper[i] - lower[i])/nbins[i], 8)")))
+    m.append(("[spelling/boundary] lattice centres are stored in an array of the bounds' dtype (integer bounds truncate them)",
+              lambda: patch(EN.LatticeSolver, "_InitialPoints", "bins.append( [lower[i] + (j+0.5)*step for j in range(nbins[i])] )",
+                            "bins.append( __import__('numpy').array([lower[i] + (j+0.5)*step for j in range(nbins[i])])"
+                            ".astype(__import__('numpy').asarray(lower[i]).dtype).tolist() )")))
+    m.append(("[spelling/boundary] an integer nbins is recognised only if it is a python int (numpy integers fall through)",
+              lambda: patch(A, "__init__", "if isinstance(nbins, Integral):", "if type(nbins) is int:")))
+    m.append(("[spelling/boundary] randomly_bin multiplies at most 4 factors per dimension",
+              lambda: patch(GR, "randomly_bin", "result = [product(result[i::dim]) for i in range(dim)]",
+                            "result = [product(result[i::dim][:4]) for i in range(dim)]")))
+    m.append(("[spelling/boundary] randomly_bin(exact=False): the threshold 'N > 3' becomes 'N > 5'",
+              lambda: patch(GR, "randomly_bin", "if not exact and N > 3 and prime:", "if not exact and N > 5 and prime:")))
+
+    def typed_gridpts():
+        return patch(GR, "gridpts", "pts = [list(reversed(w[i])) for i in range(len(w))]",
+                     "pts = __import__('numpy').array([list(reversed(w[i])) for i in range(len(w))], dtype=type(q[0][0])).tolist()")
+    m.append(("[spelling/boundary] gridpts collects the points in an array typed like the first bin (an integer first dimension "
+              "truncates the others)", typed_gridpts))
     return m
 
 
 def selftest(a):
     import types
     a2 = types.SimpleNamespace(tier="quick", seed=a.seed, jobs=a.jobs, dry=True, nruns=90)
-    cache = run_jobs(a2, kinds=("emit", "grid"))
+    cache = run_jobs(a2, kinds=("emit", "grid", "gen"))
     missed = 0
 
     def attempt(name, corrupt=None):
@@ -1024,7 +1387,7 @@ def selftest(a):
         finally:
             if callable(undo):
                 undo()
-    for what in ("behaviour", "grid", "obs", "trace"):
+    for what in ("behaviour", "grid", "obs", "trace", "gencat"):
         missed += 0 if attempt("corrupted expected value from TLC / recorded field (%s)" % what, corrupt=what) else 1
     missed += C9S.selftest_sampler(a2)
     return 1 if missed else 0
